@@ -43,6 +43,9 @@ type Case struct {
 	// its own 60..120-byte value of the field uniq: a group-by field whose values fill several
 	// blocks of a sealed fraction's token table
 	Wide gen.Synth `json:"wide"`
+	// WideOne: all synthetic documents go into the first fraction (with Wide.N > 65536 one
+	// fraction then holds more than 2^16 distinct tokens of the group-by field)
+	WideOne bool `json:"wide_one,omitempty"`
 }
 
 func genDoc(t *rapid.T, i int, seen map[model.ID]bool, spread uint64) model.Doc {
@@ -80,6 +83,13 @@ func genCase(t *rapid.T) Case {
 	c.AggLimits = rapid.IntRange(0, 2).Draw(t, "agglimits") > 0
 	if rapid.IntRange(0, 9).Draw(t, "wide") == 9 {
 		c.Wide = gen.Synth{N: rapid.IntRange(300, 1500).Draw(t, "widen"), PerMID: 3, UniqLen: rapid.IntRange(60, 120).Draw(t, "widelen"), Dur: true}
+		if rapid.IntRange(0, 9).Draw(t, "widehuge") == 9 {
+			// more than 2^16 distinct values of one field in ONE fraction (group limits off:
+			// the production default of 2000 groups would refuse the request)
+			c.Wide = gen.Synth{N: rapid.IntRange(65537, 70000).Draw(t, "widehugen"), PerMID: 3, UniqLen: 8, Dur: true}
+			c.WideOne = true
+			c.AggLimits = false
+		}
 	}
 	c.K = rapid.IntRange(1, 5).Draw(t, "k")
 	c.LastActive = rapid.Bool().Draw(t, "lastactive")
@@ -165,6 +175,24 @@ func checkQPR(what string, qpr *seq.QPR, corpus model.Corpus, rq *Req, text stri
 
 func runCase(c Case) (evid.Result, error) {
 	res := evid.Result{}
+	if c.WideOne {
+		// "quantiles are exact while a bucket has at most 8096 samples": with tens of thousands
+		// of samples they are estimates, so this class asks for no quantiles
+		reqs := append([]Req{}, c.Reqs...)
+		for i := range reqs {
+			var keep []model.AggSpec
+			for _, a := range reqs[i].Aggs {
+				if a.Func != "quantile" {
+					keep = append(keep, a)
+				}
+			}
+			if len(keep) == 0 {
+				keep = []model.AggSpec{{Func: "count", GroupBy: "uniq"}}
+			}
+			reqs[i].Aggs = keep
+		}
+		c.Reqs = reqs
+	}
 	if c.Wide.N > 0 {
 		c.Corpus = append(model.Corpus{}, c.Corpus...)
 		c.FracOf = append([]int{}, c.FracOf...)
@@ -172,12 +200,19 @@ func runCase(c Case) (evid.Result, error) {
 		for i, d := range c.Wide.Docs() {
 			d.ID.RID |= 1 << 40 // distinct from the drawn ids
 			c.Corpus = append(c.Corpus, d)
-			c.FracOf = append(c.FracOf, i%c.K)
+			if c.WideOne {
+				c.FracOf = append(c.FracOf, 0)
+			} else {
+				c.FracOf = append(c.FracOf, i%c.K)
+			}
 			if c.Shards > 0 {
 				c.ShardOf = append(c.ShardOf, i%c.Shards)
 			}
 		}
 		res.Labels = append(res.Labels, "group-by-field-with-hundreds-of-long-values")
+		if c.WideOne && c.Wide.N > 1<<16 {
+			res.Labels = append(res.Labels, "more-than-65536-distinct-values-in-one-fraction")
+		}
 	}
 	dir := evid.ScratchDir("c06")
 	st, err := harness.OpenStore(dir, harness.StoreOpts{AggLimits: c.AggLimits})
